@@ -63,17 +63,6 @@ theorem sound_add_neg_NN : stmt_add_neg_NN := by
   simp only [lhs_add_neg_NN, rhs_add_neg_NN, cond_add_neg_NN] at *
   rcases v_a with _ | x_a <;> rcases v_b with _ | x_b <;> xclose
 
--- rule:mul-zero (* ?a 0) => 0
-theorem unsound_mul_zero_N : ¬ stmt_mul_zero_N := by
-  intro h
-  have := h none (by simp [cond_mul_zero_N, notZeroN, notZeroB, condGe, condGt, condLe, condLt])
-  simp [lhs_mul_zero_N, rhs_mul_zero_N, nAdd, nSub, nMul, nDiv, nMod, nNeg, eqO, neO, ltO, gtO, leO, geO, ite3, isNull3] at this
-
-theorem sound_mul_zero_N_partial : ∀ (v_a : Option Int), v_a ≠ none → cond_mul_zero_N v_a = true → lhs_mul_zero_N v_a = rhs_mul_zero_N v_a := by
-  intro v_a hn_a hc
-  simp only [lhs_mul_zero_N, rhs_mul_zero_N, cond_mul_zero_N] at *
-  rcases v_a with _ | x_a <;> xclose
-
 -- rule:mul-one (* ?a 1) => ?a
 theorem sound_mul_one_N : stmt_mul_one_N := by
   intro v_a hc
@@ -122,31 +111,6 @@ theorem sound_zero_sub_N : stmt_zero_sub_N := by
   simp only [lhs_zero_sub_N, rhs_zero_sub_N, cond_zero_sub_N] at *
   rcases v_a with _ | x_a <;> xclose
 
--- rule:sub-cancel (- ?a ?a) => 0
-theorem unsound_sub_cancel_N : ¬ stmt_sub_cancel_N := by
-  intro h
-  have := h none (by simp [cond_sub_cancel_N, notZeroN, notZeroB, condGe, condGt, condLe, condLt])
-  simp [lhs_sub_cancel_N, rhs_sub_cancel_N, nAdd, nSub, nMul, nDiv, nMod, nNeg, eqO, neO, ltO, gtO, leO, geO, ite3, isNull3] at this
-
-theorem sound_sub_cancel_N_partial : ∀ (v_a : Option Int), v_a ≠ none → cond_sub_cancel_N v_a = true → lhs_sub_cancel_N v_a = rhs_sub_cancel_N v_a := by
-  intro v_a hn_a hc
-  simp only [lhs_sub_cancel_N, rhs_sub_cancel_N, cond_sub_cancel_N] at *
-  rcases v_a with _ | x_a <;> xclose
-
--- rule:div-cancel (/ ?a ?a) => 1 if is_not_zero(?a)
-theorem unsound_div_cancel_N : ¬ stmt_div_cancel_N := by
-  intro h
-  have := h none (by simp [cond_div_cancel_N, notZeroN, notZeroB, condGe, condGt, condLe, condLt])
-  simp [lhs_div_cancel_N, rhs_div_cancel_N, nAdd, nSub, nMul, nDiv, nMod, nNeg, eqO, neO, ltO, gtO, leO, geO, ite3, isNull3] at this
-
-theorem sound_div_cancel_N_partial : ∀ (v_a : Option Int), v_a ≠ none → cond_div_cancel_N v_a = true → lhs_div_cancel_N v_a = rhs_div_cancel_N v_a := by
-  intro v_a hn_a hc
-  simp only [lhs_div_cancel_N, rhs_div_cancel_N, cond_div_cancel_N] at *
-  rcases v_a with _ | x_a
-  · exact absurd rfl hn_a
-  · have hx : x_a ≠ 0 := by simpa [notZeroN] using hc
-    simp [nDiv, hx, Int.tdiv_self hx]
-
 -- rule:mul-add-distri (* ?a (+ ?b ?c)) => (+ (* ?a ?b) (* ?a ?c))
 theorem sound_mul_add_distri_NNN : stmt_mul_add_distri_NNN := by
   intro v_a v_b v_c hc
@@ -158,209 +122,6 @@ theorem sound_mul_add_factor_NNN : stmt_mul_add_factor_NNN := by
   intro v_a v_b v_c hc
   simp only [lhs_mul_add_factor_NNN, rhs_mul_add_factor_NNN, cond_mul_add_factor_NNN] at *
   rcases v_a with _ | x_a <;> rcases v_b with _ | x_b <;> rcases v_c with _ | x_c <;> xclose
-
--- rule:recip-mul-div (* ?x (/ 1 ?x)) => 1 if is_not_zero(?x)
-theorem unsound_recip_mul_div_N : ¬ stmt_recip_mul_div_N := by
-  intro h
-  have := h none (by simp [cond_recip_mul_div_N, notZeroN, notZeroB, condGe, condGt, condLe, condLt])
-  simp [lhs_recip_mul_div_N, rhs_recip_mul_div_N, nAdd, nSub, nMul, nDiv, nMod, nNeg, eqO, neO, ltO, gtO, leO, geO, ite3, isNull3] at this
-
-/-- `x * (1 / x) = 1` holds for integers only at `x = ±1` (integer division). -/
-theorem sound_recip_mul_div_N_partial : ∀ (v_x : Option Int), (v_x = some 1 ∨ v_x = some (-1)) → cond_recip_mul_div_N v_x = true → lhs_recip_mul_div_N v_x = rhs_recip_mul_div_N v_x := by
-  intro v_x hx hc
-  rcases hx with rfl | rfl <;> decide
-
-/-- Second witness: a non-NULL one (`3 * (1 / 3) = 0`, the rule says `1`). -/
-theorem unsound_recip_mul_div_N_nonnull : ¬ (∀ v_x : Option Int, v_x ≠ none → cond_recip_mul_div_N v_x = true → lhs_recip_mul_div_N v_x = rhs_recip_mul_div_N v_x) := by
-  intro h
-  have := h (some 3) (by simp) (by decide)
-  revert this; decide
-
--- rule:eq-eq (= ?a ?a) => true
-theorem unsound_eq_eq_N : ¬ stmt_eq_eq_N := by
-  intro h
-  have := h none (by simp [cond_eq_eq_N, notZeroN, notZeroB, condGe, condGt, condLe, condLt])
-  simp [lhs_eq_eq_N, rhs_eq_eq_N, nAdd, nSub, nMul, nDiv, nMod, nNeg, eqO, neO, ltO, gtO, leO, geO, ite3, isNull3] at this
-
-theorem sound_eq_eq_N_partial : ∀ (v_a : Option Int), v_a ≠ none → cond_eq_eq_N v_a = true → lhs_eq_eq_N v_a = rhs_eq_eq_N v_a := by
-  intro v_a hn_a hc
-  simp only [lhs_eq_eq_N, rhs_eq_eq_N, cond_eq_eq_N] at *
-  rcases v_a with _ | x_a <;> xclose
-
-theorem unsound_eq_eq_B : ¬ stmt_eq_eq_B := by
-  intro h
-  have := h none (by simp [cond_eq_eq_B, notZeroN, notZeroB, condGe, condGt, condLe, condLt])
-  simp [lhs_eq_eq_B, rhs_eq_eq_B, nAdd, nSub, nMul, nDiv, nMod, nNeg, eqO, neO, ltO, gtO, leO, geO, ite3, isNull3] at this
-
-theorem sound_eq_eq_B_partial : ∀ (v_a : Option Bool), v_a ≠ none → cond_eq_eq_B v_a = true → lhs_eq_eq_B v_a = rhs_eq_eq_B v_a := by
-  intro v_a hn_a hc
-  simp only [lhs_eq_eq_B, rhs_eq_eq_B, cond_eq_eq_B] at *
-  rcases v_a with _ | _ | _ <;> xclose
-
-theorem unsound_eq_eq_S : ¬ stmt_eq_eq_S := by
-  intro h
-  have := h none (by simp [cond_eq_eq_S, notZeroN, notZeroB, condGe, condGt, condLe, condLt])
-  simp [lhs_eq_eq_S, rhs_eq_eq_S, nAdd, nSub, nMul, nDiv, nMod, nNeg, eqO, neO, ltO, gtO, leO, geO, ite3, isNull3] at this
-
-theorem sound_eq_eq_S_partial : ∀ (v_a : Option String), v_a ≠ none → cond_eq_eq_S v_a = true → lhs_eq_eq_S v_a = rhs_eq_eq_S v_a := by
-  intro v_a hn_a hc
-  simp only [lhs_eq_eq_S, rhs_eq_eq_S, cond_eq_eq_S] at *
-  rcases v_a with _ | x_a <;> xclose
-
--- rule:ne-eq (<> ?a ?a) => false
-theorem unsound_ne_eq_N : ¬ stmt_ne_eq_N := by
-  intro h
-  have := h none (by simp [cond_ne_eq_N, notZeroN, notZeroB, condGe, condGt, condLe, condLt])
-  simp [lhs_ne_eq_N, rhs_ne_eq_N, nAdd, nSub, nMul, nDiv, nMod, nNeg, eqO, neO, ltO, gtO, leO, geO, ite3, isNull3] at this
-
-theorem sound_ne_eq_N_partial : ∀ (v_a : Option Int), v_a ≠ none → cond_ne_eq_N v_a = true → lhs_ne_eq_N v_a = rhs_ne_eq_N v_a := by
-  intro v_a hn_a hc
-  simp only [lhs_ne_eq_N, rhs_ne_eq_N, cond_ne_eq_N] at *
-  rcases v_a with _ | x_a <;> xclose
-
-theorem unsound_ne_eq_B : ¬ stmt_ne_eq_B := by
-  intro h
-  have := h none (by simp [cond_ne_eq_B, notZeroN, notZeroB, condGe, condGt, condLe, condLt])
-  simp [lhs_ne_eq_B, rhs_ne_eq_B, nAdd, nSub, nMul, nDiv, nMod, nNeg, eqO, neO, ltO, gtO, leO, geO, ite3, isNull3] at this
-
-theorem sound_ne_eq_B_partial : ∀ (v_a : Option Bool), v_a ≠ none → cond_ne_eq_B v_a = true → lhs_ne_eq_B v_a = rhs_ne_eq_B v_a := by
-  intro v_a hn_a hc
-  simp only [lhs_ne_eq_B, rhs_ne_eq_B, cond_ne_eq_B] at *
-  rcases v_a with _ | _ | _ <;> xclose
-
-theorem unsound_ne_eq_S : ¬ stmt_ne_eq_S := by
-  intro h
-  have := h none (by simp [cond_ne_eq_S, notZeroN, notZeroB, condGe, condGt, condLe, condLt])
-  simp [lhs_ne_eq_S, rhs_ne_eq_S, nAdd, nSub, nMul, nDiv, nMod, nNeg, eqO, neO, ltO, gtO, leO, geO, ite3, isNull3] at this
-
-theorem sound_ne_eq_S_partial : ∀ (v_a : Option String), v_a ≠ none → cond_ne_eq_S v_a = true → lhs_ne_eq_S v_a = rhs_ne_eq_S v_a := by
-  intro v_a hn_a hc
-  simp only [lhs_ne_eq_S, rhs_ne_eq_S, cond_ne_eq_S] at *
-  rcases v_a with _ | x_a <;> xclose
-
--- rule:gt-eq (> ?a ?a) => false
-theorem unsound_gt_eq_N : ¬ stmt_gt_eq_N := by
-  intro h
-  have := h none (by simp [cond_gt_eq_N, notZeroN, notZeroB, condGe, condGt, condLe, condLt])
-  simp [lhs_gt_eq_N, rhs_gt_eq_N, nAdd, nSub, nMul, nDiv, nMod, nNeg, eqO, neO, ltO, gtO, leO, geO, ite3, isNull3] at this
-
-theorem sound_gt_eq_N_partial : ∀ (v_a : Option Int), v_a ≠ none → cond_gt_eq_N v_a = true → lhs_gt_eq_N v_a = rhs_gt_eq_N v_a := by
-  intro v_a hn_a hc
-  simp only [lhs_gt_eq_N, rhs_gt_eq_N, cond_gt_eq_N] at *
-  rcases v_a with _ | x_a <;> xclose
-
-theorem unsound_gt_eq_B : ¬ stmt_gt_eq_B := by
-  intro h
-  have := h none (by simp [cond_gt_eq_B, notZeroN, notZeroB, condGe, condGt, condLe, condLt])
-  simp [lhs_gt_eq_B, rhs_gt_eq_B, nAdd, nSub, nMul, nDiv, nMod, nNeg, eqO, neO, ltO, gtO, leO, geO, ite3, isNull3] at this
-
-theorem sound_gt_eq_B_partial : ∀ (v_a : Option Bool), v_a ≠ none → cond_gt_eq_B v_a = true → lhs_gt_eq_B v_a = rhs_gt_eq_B v_a := by
-  intro v_a hn_a hc
-  simp only [lhs_gt_eq_B, rhs_gt_eq_B, cond_gt_eq_B] at *
-  rcases v_a with _ | _ | _ <;> xclose
-
-theorem unsound_gt_eq_S : ¬ stmt_gt_eq_S := by
-  intro h
-  have := h none (by simp [cond_gt_eq_S, notZeroN, notZeroB, condGe, condGt, condLe, condLt])
-  simp [lhs_gt_eq_S, rhs_gt_eq_S, nAdd, nSub, nMul, nDiv, nMod, nNeg, eqO, neO, ltO, gtO, leO, geO, ite3, isNull3] at this
-
-theorem sound_gt_eq_S_partial : ∀ (v_a : Option String), v_a ≠ none → cond_gt_eq_S v_a = true → lhs_gt_eq_S v_a = rhs_gt_eq_S v_a := by
-  intro v_a hn_a hc
-  simp only [lhs_gt_eq_S, rhs_gt_eq_S, cond_gt_eq_S] at *
-  rcases v_a with _ | x_a <;> xclose
-
--- rule:lt-eq (< ?a ?a) => false
-theorem unsound_lt_eq_N : ¬ stmt_lt_eq_N := by
-  intro h
-  have := h none (by simp [cond_lt_eq_N, notZeroN, notZeroB, condGe, condGt, condLe, condLt])
-  simp [lhs_lt_eq_N, rhs_lt_eq_N, nAdd, nSub, nMul, nDiv, nMod, nNeg, eqO, neO, ltO, gtO, leO, geO, ite3, isNull3] at this
-
-theorem sound_lt_eq_N_partial : ∀ (v_a : Option Int), v_a ≠ none → cond_lt_eq_N v_a = true → lhs_lt_eq_N v_a = rhs_lt_eq_N v_a := by
-  intro v_a hn_a hc
-  simp only [lhs_lt_eq_N, rhs_lt_eq_N, cond_lt_eq_N] at *
-  rcases v_a with _ | x_a <;> xclose
-
-theorem unsound_lt_eq_B : ¬ stmt_lt_eq_B := by
-  intro h
-  have := h none (by simp [cond_lt_eq_B, notZeroN, notZeroB, condGe, condGt, condLe, condLt])
-  simp [lhs_lt_eq_B, rhs_lt_eq_B, nAdd, nSub, nMul, nDiv, nMod, nNeg, eqO, neO, ltO, gtO, leO, geO, ite3, isNull3] at this
-
-theorem sound_lt_eq_B_partial : ∀ (v_a : Option Bool), v_a ≠ none → cond_lt_eq_B v_a = true → lhs_lt_eq_B v_a = rhs_lt_eq_B v_a := by
-  intro v_a hn_a hc
-  simp only [lhs_lt_eq_B, rhs_lt_eq_B, cond_lt_eq_B] at *
-  rcases v_a with _ | _ | _ <;> xclose
-
-theorem unsound_lt_eq_S : ¬ stmt_lt_eq_S := by
-  intro h
-  have := h none (by simp [cond_lt_eq_S, notZeroN, notZeroB, condGe, condGt, condLe, condLt])
-  simp [lhs_lt_eq_S, rhs_lt_eq_S, nAdd, nSub, nMul, nDiv, nMod, nNeg, eqO, neO, ltO, gtO, leO, geO, ite3, isNull3] at this
-
-theorem sound_lt_eq_S_partial : ∀ (v_a : Option String), v_a ≠ none → cond_lt_eq_S v_a = true → lhs_lt_eq_S v_a = rhs_lt_eq_S v_a := by
-  intro v_a hn_a hc
-  simp only [lhs_lt_eq_S, rhs_lt_eq_S, cond_lt_eq_S] at *
-  rcases v_a with _ | x_a <;> xclose
-
--- rule:ge-eq (>= ?a ?a) => true
-theorem unsound_ge_eq_N : ¬ stmt_ge_eq_N := by
-  intro h
-  have := h none (by simp [cond_ge_eq_N, notZeroN, notZeroB, condGe, condGt, condLe, condLt])
-  simp [lhs_ge_eq_N, rhs_ge_eq_N, nAdd, nSub, nMul, nDiv, nMod, nNeg, eqO, neO, ltO, gtO, leO, geO, ite3, isNull3] at this
-
-theorem sound_ge_eq_N_partial : ∀ (v_a : Option Int), v_a ≠ none → cond_ge_eq_N v_a = true → lhs_ge_eq_N v_a = rhs_ge_eq_N v_a := by
-  intro v_a hn_a hc
-  simp only [lhs_ge_eq_N, rhs_ge_eq_N, cond_ge_eq_N] at *
-  rcases v_a with _ | x_a <;> xclose
-
-theorem unsound_ge_eq_B : ¬ stmt_ge_eq_B := by
-  intro h
-  have := h none (by simp [cond_ge_eq_B, notZeroN, notZeroB, condGe, condGt, condLe, condLt])
-  simp [lhs_ge_eq_B, rhs_ge_eq_B, nAdd, nSub, nMul, nDiv, nMod, nNeg, eqO, neO, ltO, gtO, leO, geO, ite3, isNull3] at this
-
-theorem sound_ge_eq_B_partial : ∀ (v_a : Option Bool), v_a ≠ none → cond_ge_eq_B v_a = true → lhs_ge_eq_B v_a = rhs_ge_eq_B v_a := by
-  intro v_a hn_a hc
-  simp only [lhs_ge_eq_B, rhs_ge_eq_B, cond_ge_eq_B] at *
-  rcases v_a with _ | _ | _ <;> xclose
-
-theorem unsound_ge_eq_S : ¬ stmt_ge_eq_S := by
-  intro h
-  have := h none (by simp [cond_ge_eq_S, notZeroN, notZeroB, condGe, condGt, condLe, condLt])
-  simp [lhs_ge_eq_S, rhs_ge_eq_S, nAdd, nSub, nMul, nDiv, nMod, nNeg, eqO, neO, ltO, gtO, leO, geO, ite3, isNull3] at this
-
-theorem sound_ge_eq_S_partial : ∀ (v_a : Option String), v_a ≠ none → cond_ge_eq_S v_a = true → lhs_ge_eq_S v_a = rhs_ge_eq_S v_a := by
-  intro v_a hn_a hc
-  simp only [lhs_ge_eq_S, rhs_ge_eq_S, cond_ge_eq_S] at *
-  rcases v_a with _ | x_a <;> xclose
-
--- rule:le-eq (<= ?a ?a) => true
-theorem unsound_le_eq_N : ¬ stmt_le_eq_N := by
-  intro h
-  have := h none (by simp [cond_le_eq_N, notZeroN, notZeroB, condGe, condGt, condLe, condLt])
-  simp [lhs_le_eq_N, rhs_le_eq_N, nAdd, nSub, nMul, nDiv, nMod, nNeg, eqO, neO, ltO, gtO, leO, geO, ite3, isNull3] at this
-
-theorem sound_le_eq_N_partial : ∀ (v_a : Option Int), v_a ≠ none → cond_le_eq_N v_a = true → lhs_le_eq_N v_a = rhs_le_eq_N v_a := by
-  intro v_a hn_a hc
-  simp only [lhs_le_eq_N, rhs_le_eq_N, cond_le_eq_N] at *
-  rcases v_a with _ | x_a <;> xclose
-
-theorem unsound_le_eq_B : ¬ stmt_le_eq_B := by
-  intro h
-  have := h none (by simp [cond_le_eq_B, notZeroN, notZeroB, condGe, condGt, condLe, condLt])
-  simp [lhs_le_eq_B, rhs_le_eq_B, nAdd, nSub, nMul, nDiv, nMod, nNeg, eqO, neO, ltO, gtO, leO, geO, ite3, isNull3] at this
-
-theorem sound_le_eq_B_partial : ∀ (v_a : Option Bool), v_a ≠ none → cond_le_eq_B v_a = true → lhs_le_eq_B v_a = rhs_le_eq_B v_a := by
-  intro v_a hn_a hc
-  simp only [lhs_le_eq_B, rhs_le_eq_B, cond_le_eq_B] at *
-  rcases v_a with _ | _ | _ <;> xclose
-
-theorem unsound_le_eq_S : ¬ stmt_le_eq_S := by
-  intro h
-  have := h none (by simp [cond_le_eq_S, notZeroN, notZeroB, condGe, condGt, condLe, condLt])
-  simp [lhs_le_eq_S, rhs_le_eq_S, nAdd, nSub, nMul, nDiv, nMod, nNeg, eqO, neO, ltO, gtO, leO, geO, ite3, isNull3] at this
-
-theorem sound_le_eq_S_partial : ∀ (v_a : Option String), v_a ≠ none → cond_le_eq_S v_a = true → lhs_le_eq_S v_a = rhs_le_eq_S v_a := by
-  intro v_a hn_a hc
-  simp only [lhs_le_eq_S, rhs_le_eq_S, cond_le_eq_S] at *
-  rcases v_a with _ | x_a <;> xclose
 
 -- rule:eq-comm (= ?a ?b) => (= ?b ?a)
 theorem sound_eq_comm_NN : stmt_eq_comm_NN := by
@@ -899,37 +660,6 @@ theorem sound_if_true_SS : stmt_if_true_SS := by
   intro v_then v_else hc
   simp only [lhs_if_true_SS, rhs_if_true_SS, cond_if_true_SS] at *
   rcases v_then with _ | x_then <;> rcases v_else with _ | x_else <;> xclose
-
--- rule:if-not (if (not ?cond) ?then ?else) => (if ?cond ?else ?then)
-theorem unsound_if_not_BNN : ¬ stmt_if_not_BNN := by
-  intro h
-  have := h none none (some (0)) (by simp [cond_if_not_BNN, notZeroN, notZeroB, condGe, condGt, condLe, condLt])
-  simp [lhs_if_not_BNN, rhs_if_not_BNN, nAdd, nSub, nMul, nDiv, nMod, nNeg, eqO, neO, ltO, gtO, leO, geO, ite3, isNull3] at this
-
-theorem sound_if_not_BNN_partial : ∀ (v_cond : Option Bool) (v_then : Option Int) (v_else : Option Int), v_cond ≠ none → v_then ≠ none → v_else ≠ none → cond_if_not_BNN v_cond v_then v_else = true → lhs_if_not_BNN v_cond v_then v_else = rhs_if_not_BNN v_cond v_then v_else := by
-  intro v_cond v_then v_else hn_cond hn_then hn_else hc
-  simp only [lhs_if_not_BNN, rhs_if_not_BNN, cond_if_not_BNN] at *
-  rcases v_cond with _ | _ | _ <;> rcases v_then with _ | x_then <;> rcases v_else with _ | x_else <;> xclose
-
-theorem unsound_if_not_BBB : ¬ stmt_if_not_BBB := by
-  intro h
-  have := h none none (some true) (by simp [cond_if_not_BBB, notZeroN, notZeroB, condGe, condGt, condLe, condLt])
-  simp [lhs_if_not_BBB, rhs_if_not_BBB, nAdd, nSub, nMul, nDiv, nMod, nNeg, eqO, neO, ltO, gtO, leO, geO, ite3, isNull3] at this
-
-theorem sound_if_not_BBB_partial : ∀ (v_cond : Option Bool) (v_then : Option Bool) (v_else : Option Bool), v_cond ≠ none → v_then ≠ none → v_else ≠ none → cond_if_not_BBB v_cond v_then v_else = true → lhs_if_not_BBB v_cond v_then v_else = rhs_if_not_BBB v_cond v_then v_else := by
-  intro v_cond v_then v_else hn_cond hn_then hn_else hc
-  simp only [lhs_if_not_BBB, rhs_if_not_BBB, cond_if_not_BBB] at *
-  rcases v_cond with _ | _ | _ <;> rcases v_then with _ | _ | _ <;> rcases v_else with _ | _ | _ <;> xclose
-
-theorem unsound_if_not_BSS : ¬ stmt_if_not_BSS := by
-  intro h
-  have := h none none (some "") (by simp [cond_if_not_BSS, notZeroN, notZeroB, condGe, condGt, condLe, condLt])
-  simp [lhs_if_not_BSS, rhs_if_not_BSS, nAdd, nSub, nMul, nDiv, nMod, nNeg, eqO, neO, ltO, gtO, leO, geO, ite3, isNull3] at this
-
-theorem sound_if_not_BSS_partial : ∀ (v_cond : Option Bool) (v_then : Option String) (v_else : Option String), v_cond ≠ none → v_then ≠ none → v_else ≠ none → cond_if_not_BSS v_cond v_then v_else = true → lhs_if_not_BSS v_cond v_then v_else = rhs_if_not_BSS v_cond v_then v_else := by
-  intro v_cond v_then v_else hn_cond hn_then hn_else hc
-  simp only [lhs_if_not_BSS, rhs_if_not_BSS, cond_if_not_BSS] at *
-  rcases v_cond with _ | _ | _ <;> rcases v_then with _ | x_then <;> rcases v_else with _ | x_else <;> xclose
 
 -- rule:add-or-distri (or (and ?a ?b) (and ?a ?c))) => (and ?a (or ?b ?c))
 theorem sound_add_or_distri_BBB : stmt_add_or_distri_BBB := by
